@@ -177,6 +177,61 @@ def body_delays(S, loop, part):
     S.note("fired", len(es))
 
 
+def body_delay_tie(S, loop, part):
+    """two delays due at the very same instant; the one that runs first removes / replaces the other or clears the manager:
+    the other one never fires (whichever of the two the loop runs first)"""
+    from mpf.core.events import EventManager
+    from mpf.core.delays import DelayManager
+    S.now_symbolic(loop)
+    m = stubs.StubMachine(loop)
+    m.events = EventManager(m)
+    dm = DelayManager(m)
+    fired = []
+    action = part["action"]             # remove | reset | clear | add (replace under the same name)
+    ms0 = S.real("ms0", 1, 3000)
+    gap = S.real("gap", 0, 1)
+    S.assume(gap * 1000 < ms0)
+    ms_new = S.real("ms_replacement", 1, 3000)
+
+    def mk(name, other):
+        def cb(**kwargs):
+            fired.append((name, kwargs.get("tok"), loop.time()))
+            if len(fired) == 1:
+                if action == "remove":
+                    dm.remove(other)
+                elif action == "clear":
+                    dm.clear()
+                elif action == "reset":
+                    dm.reset(ms_new, mk2(other), other, tok="new")
+                else:
+                    dm.add(ms_new, mk2(other), other, tok="new")
+        return cb
+
+    def mk2(name):
+        def cb(**kwargs):
+            fired.append((name, kwargs.get("tok"), loop.time()))
+        return cb
+    t0 = loop.time()
+    dm.add(ms0, mk("a", "b"), "a", tok="old")
+    loop.run_for(gap)
+    dm.add(ms0 - (loop.time() - t0) * 1000, mk("b", "a"), "b", tok="old")         # due at the same instant as "a"
+    loop.run_for(8)
+    old = [f for f in fired if f[1] == "old"]
+    new = [f for f in fired if f[1] == "new"]
+    if len(old) != 1:
+        raise Violation("removed-or-replaced-delay-never-fires", "DelayManager.remove" if action in ("remove", "clear") else "DelayManager.add",
+                        "two delays due at +%s; the first to run did '%s' on the other, yet the callbacks that ran are %s" % (ms0 / 1000.0, action, fired))
+    if action in ("reset", "add"):
+        if len(new) != 1 or new[0][2] != old[0][2] + ms_new / 1000.0:
+            raise Violation("delay-fires-at-promised-time", "DelayManager.add", "replacement delay: fired %s, expected once at +%s" % (new, old[0][2] - t0 + ms_new / 1000.0))
+    elif new:
+        raise Violation("delay-fires-exactly-once-or-never", "DelayManager.add", "unexpected callbacks %s" % new)
+    if dm.delays:
+        raise Violation("check-is-truthful", "_process_delay_callback", "delays left: %s" % list(dm.delays))
+    S.note("nontrivial", True)
+    S.note("action", action)
+
+
 def body_periodic(S, loop, part):
     from mpf.core.clock import ClockBase
     S.now_symbolic(loop)
@@ -424,4 +479,5 @@ def scenarios(tier):
         tparts = [dict(ops=["start", a], n=4, restart_on_complete=r) for a in TOPS for r in (False, True)]
     return [Scenario("timer", setup_timer, body_timer, tparts, teardown=teardown_timer, part_budget=pb, per_path_timeout=30),
             Scenario("delays", setup, body_delays, parts, teardown=teardown, part_budget=pb, per_path_timeout=30),
+            Scenario("delay_tie", setup, body_delay_tie, [dict(action=a) for a in ("remove", "reset", "clear", "add")], teardown=teardown, part_budget=pb, per_path_timeout=30),
             Scenario("periodic", setup, body_periodic, per, teardown=teardown, part_budget=pb, per_path_timeout=60)]
